@@ -107,7 +107,7 @@ def close_max_len(rng, d):
         return rng.choice([1200, 1452, 65535])
     if k < 8:
         return need + rng.range(0, rl + 3)
-    if k < 9:
+    if k < 9 or rng.chance(3, 4):
         return need
     return rng.range(0, need)  # the subtraction underflows when < need: panic (modelled)
 
@@ -167,6 +167,38 @@ def py_encode(d, withlen):
     raise ValueError(t)
 
 
+def tight_ack(rng):
+    """ACK whose lowest range starts at (or within 2 of) packet 0, with one of the block/gap varints or `largest`
+    perturbed by +-1/+2: on the boundary of scan_ack_blocks' underflow checks"""
+    n = rng.choice([1, 1, 2, 3, 5])
+    s = rng.choice([0, 0, 0, 1, 2])
+    rs = []
+    for _ in range(n):
+        e = s + rng.choice([1, 1, 2, 3, 64])
+        rs.append((s, e))
+        s = e + rng.choice([1, 1, 2, 3, 64])
+    rs.reverse()
+    s0, e0 = rs[0]
+    vals = [e0 - 1, rng.choice([0, 5]), n - 1, e0 - s0 - 1]
+    prev = s0
+    for (s2, e2) in rs[1:]:
+        vals += [prev - e2 - 1, e2 - s2 - 1]
+        prev = s2
+    k = rng.below(8)
+    if k < 6:
+        i = rng.choice([0] + list(range(3, len(vals))))
+        vals[i] = max(0, vals[i] + rng.choice([1, 1, 2, -1, 3]))
+    elif k < 7:
+        vals[2] += rng.choice([1, 2])  # one more block than present
+    ecn = rng.below(2)
+    out = venc(3 if ecn else 2)
+    for v in vals:
+        out += venc(v)
+    if ecn:
+        out += venc(1) + venc(2) + venc(3)
+    return out
+
+
 def nonminimal(b, rng):
     """re-encode the leading 1-byte varint (frame type) in 2, 4 or 8 bytes"""
     if not b or b[0] >= 64:
@@ -181,6 +213,8 @@ def gen_payload(rng):
     k = rng.below(20)
     if k < 2:
         return rng.bytes(rng.range(0, 24))
+    if k < 4:
+        return tight_ack(rng) + (venc(1) if rng.chance(1, 2) else [])
     n = rng.choice([1, 1, 2, 2, 3, 4, 6])
     out = []
     for i in range(n):
